@@ -340,6 +340,11 @@ class Anchors:
                 return "METRIC:" + m
             if tr == "Subscription" and virtual:
                 return "UNSUBSCRIBE"
+        cb = self.p.callee_body(site)
+        if cb is not None and (cb.j.get("impl_adt") or "") == self.receiver_adt["path"] and not cb.is_closure():
+            # the consumer-side wrapper's receive methods are the pass boundary
+            if any(s.ck in CB_DEQUEUE for s in self.p.sites(cb)):
+                return "RECV"
         if ck in CB_RECV:
             return "RECV"
         if ck in CB_TRYRECV:
